@@ -87,6 +87,9 @@ def gen_cases(ctx):
             for mx in maxima:
                 if pol == 0 and mx > 1000:
                     continue
+                if mx in (9, 64, 100):
+                    for mode in (0, 1, 2):
+                        add('bucket', 'bucket_max', lt, pol, mx, mode)
                 for s in range(1, mx + 1):
                     add('bucket', 'bucket', lt, pol, mx, s)
                     if mx in (9, 64, 100):
@@ -141,6 +144,12 @@ def oracle(fn, args, r):
         x, = args
         exp = (x - 1).bit_length()
         return None if r == exp else '%s(%d) should be %d, got %d' % (fn, x, exp, r)
+    if fn == 'bucket_max':
+        lt, pol, mx, mode = args
+        how = ['as constructed', 'after move construction', 'after move assignment onto an array built for a smaller maximum'][mode]
+        if r < mx or (pol == 1 and r >= 2 * mx) or (pol == 0 and r != mx):
+            return 'list array for maximum node size %d reports max_node_size() = %d %s (list type %d, policy %d)' % (mx, r, how, lt, pol)
+        return None
     if fn in ('bucket', 'bucket_moved', 'bucket_assigned', 'bucket_static'):
         lt, pol, mx, s = args
         if r < s:
